@@ -111,6 +111,25 @@ theorem C16_uri_opts_uri_exact (ip : IpOracle) (laws : IpLaws ip) (u : Bytes) (h
     ∃ u' o', NormalForm ip o u' o' :=
   normalForm_of_accepted laws hu hok hname
 
+/-- **What is composed is URI text** (RFC 3986 §2: unreserved, sub-delims, `: / ? # [ ] @`, `%`
+— no blank, control, quote, non-ASCII byte), authority and bracketed literal included: for every
+canonical non-degenerate option set, and for the options of every accepted text whatever that
+text contained.  This is what the zone-identifier fixes bought: before them `_quote_host` and the
+remote of `coap://[::1%a b]/` handed any zone identifier back verbatim. -/
+theorem C16_composed_is_uri_text (ip : IpOracle) (laws : IpLaws ip) :
+    (∀ r : Resource, r.WF ip →
+      ∃ u, getRequestUri ip (r.toOpts ip) = some u ∧ ∀ c ∈ u, isUriChar c = true) ∧
+    (∀ u : Bytes, u.wf → ∀ o, setRequestUri ip u = .ok o →
+      ∃ u', getRequestUri ip o = some u' ∧ ∀ c ∈ u', isUriChar c = true) := by
+  constructor
+  · intro r h
+    exact ⟨_, getRequestUri_toOpts h,
+      render_uriChars h.scheme (toOpts_facts h).uriChars h.path h.query⟩
+  · intro u hu o hok
+    rcases uri_opts_uri_total laws hu hok with ⟨u', o', hnf⟩ | ⟨h, u', o', _, _, hm⟩
+    · exact ⟨u', hnf.composed, hnf.uriText⟩
+    · exact ⟨u', hm.composed, hm.uriText⟩
+
 -- 4. distinct resources never collapse ------------------------------------------------------
 
 /-- `get_request_uri` is injective on canonical, non-degenerate option sets. -/
